@@ -45,6 +45,13 @@ for name in names + ['mesh4:in-line amplifiers given']:
                                                                            for x in list(net.predecessors(n)) + list(net.successors(n)))]
         incs += [[x, y] for x, y in itertools.permutations(near, 2)][:(12 if a.tier == 'quick' else 60)]
         others = [s_ for s_ in sites if s_ not in (src, dst)]
+        # three lines named one after the other that pass the destination and come back to it (and the same leaving the source
+        # and coming back): the lines are adjacent, the walk along them is not a path
+        for x in others:
+            for walk in ([(src, dst), (dst, x), (x, dst)], [(src, x), (x, src), (src, dst)]):
+                uids = [next((u for u in by_uid if u.startswith(f'fiber ({p_} -> {q_})')), None) for p_, q_ in walk]
+                if all(uids):
+                    incs.append(uids)
         # unknown node names given as LOOSE hops (dropped by the clean-up) in front of a real STRICT / LOOSE hop
         mixed = [(['roadm X1', 'roadm X2', f'roadm {others[0]}'], [False, False, True]),
                  (['roadm X1', f'roadm {others[0]}'], [False, True]),
@@ -102,5 +109,5 @@ for name in names + ['mesh4:in-line amplifiers given']:
                     wit.append({'key': f'{name}:{src}->{dst}:{inc}:{flags}', 'problems': prob})
 finish('routes are real, loop-free, constraint-respecting shortest paths', 'bounded',
        'gnpy.topology.request.correct_json_route_list + compute_path_dsjctn (compute_constrained_path) + find_reversed_path',
-       f'topologies {names}, every ordered site pair, include lists of <= 2 ROADMs / line elements (pairs of amplifiers next to the end ROADMs included), STRICT and LOOSE',
+       f'topologies {names}, every ordered site pair, include lists of <= 2 ROADMs / line elements (pairs of amplifiers next to the end ROADMs included), walks of three adjacent lines that come back to an end site, STRICT and LOOSE',
        cases, wit, nontrivial=nontriv, t0=t0)
